@@ -43,3 +43,7 @@ func verifDebug(label string, s string)                 {}
 func verifSetCwd(dir string)                            {}
 func verifRecordMapRangers(on bool)                     {}
 func verifMapRangers() []string                         { return nil }
+func verifSetNumCPU(n int)                              {}
+func verifTraceStart()                                  {}
+func verifTraceEvent(kind string)                       {}
+func verifScheduleCheck(cpus int)                       {}
